@@ -73,6 +73,12 @@ LS2Vecs ==
 DeclVecs ==
   SeqMap(LAMBDA d : SB("NewLeaseSet2", 7, [ct |-> 4, pairs |-> MapSets[3], off |-> FALSE, tst |-> 7, flags |-> 0, nkeys |-> 1, nleases |-> 1, published |-> T4, expires |-> 600,
                                             offexpires |-> T4, declst |-> d], 64, << 3 >>, 1000 + d), << 8, 11, 7 >>)
+  \* ... the same with an offline block (the transient key signs; the identity is still the identity), under every flag word
+  \o Cross3(<< 8, 11, 7 >>, << 7, 11 >>, << 1, 3 >>, LAMBDA d, tst, f :
+       SB("NewLeaseSet2", 7, [ct |-> 4, pairs |-> MapSets[3], off |-> TRUE, tst |-> tst, flags |-> f, nkeys |-> 1, nleases |-> 1, published |-> T4, expires |-> 600,
+                              offexpires |-> << 101, 36, 250, 0 >>, declst |-> d], 64, << 3 >>, 1030 + d + tst + f))
+  \o SeqMap(LAMBDA d : SB("NewLeaseSet2", 7, [ct |-> 4, pairs |-> MapSets[3], off |-> FALSE, tst |-> 7, flags |-> 2, nkeys |-> 1, nleases |-> 1, published |-> T4, expires |-> 600,
+                                            offexpires |-> T4, declst |-> d], 64, << 3 >>, 1060 + d), << 8, 11, 7 >>)
   \o SeqMap(LAMBDA d : SB("NewLeaseSet", 7, [ct |-> 4, nleases |-> 1, declst |-> d], 64, << >>, 1010 + d), << 8, 11, 7 >>)
   \o SeqMap(LAMBDA d : SB("NewRouterInfo", 7, [ct |-> 4, pairs |-> MapSets[3], naddr |-> 1, pubsec |-> PadTo(T4, 8), pubneg |-> FALSE, pubns |-> 0, declst |-> d], 64, << >>, 1020 + d), << 8, 11, 7 >>)
 \* the same calls made by several goroutines at once, each around fresh keys
@@ -88,7 +94,8 @@ ConcVecs ==
 \* the twin constructor NewEncryptedLeaseSetFromDestination (signing type and blinded key taken from a Destination): same tuples, same judgement
 ViaDest(vs) == SeqMap(LAMBDA v : [ops |-> SeqMap(LAMBDA o : [o EXCEPT !.m = @ @@ [viadest |-> TRUE]], v.ops)], vs)
 NoKeyDelta(v) == "keydelta" \notin DOMAIN v.ops[1].m \/ v.ops[1].m.keydelta = 0      \* (a key of the wrong length cannot sit in a Destination)
-Vecs == ViaDest(ELSVecs \o SelectSeq(ELSDefectVecs, NoKeyDelta)) \o ConcVecs \o DeclVecs \o RIVecs \o LSVecs \o OffVecs \o ELSVecs \o ELSOddTransientVecs \o ELSMismatchVecs \o ELSDefectVecs \o LS2Vecs
+CONSTANT Part      \* "all" | "decl" (C09 replays the declared-type identities only)
+Vecs == IF Part = "decl" THEN DeclVecs ELSE ViaDest(ELSVecs \o SelectSeq(ELSDefectVecs, NoKeyDelta)) \o ConcVecs \o DeclVecs \o RIVecs \o LSVecs \o OffVecs \o ELSVecs \o ELSOddTransientVecs \o ELSMismatchVecs \o ELSDefectVecs \o LS2Vecs
 VARIABLE done
 Init == done = FALSE
 Next == ~done /\ ndJsonSerialize(OutFile, Vecs) /\ PrintT(<< "GENERATED", Len(Vecs) >>) /\ done' = TRUE
